@@ -1317,7 +1317,7 @@ theorem divm_tapeFree (a b m : Int) : TapeFree (divm a b m) := by
 theorem sqrtM_tapeFree (x : Int) : TapeFree (sqrtM x) := by
   unfold sqrtM; repeat tf_step
 
-theorem tolBounds_tapeFree (a b : Int) (t l T : Nat) : TapeFree (tolBounds a b t l T) := by
+theorem tolBounds_tapeFree (a b : Int) (T : Nat) : TapeFree (tolBounds a b T) := by
   unfold tolBounds
   exact TapeFree.bind (sqrtM_tapeFree _) fun _ => TapeFree.pure _
 
@@ -1328,14 +1328,15 @@ theorem verifySameSecret_tapeFree (E F g1 h1 g2 h2 n : Int) (π : ProofSs) :
 theorem verifyOfSquare_tapeFree (π : ProofOfS) (g h n : Int) : TapeFree (verifyOfSquare π g h n) :=
   verifySameSecret_tapeFree _ _ _ _ _ _ _ _
 
-theorem verifyLargeIntervalSpecific_tapeFree (π : ProofLi) (E g h n : Int) (t l : Nat) (b : Int)
-    (T : Nat) : TapeFree (verifyLargeIntervalSpecific π E g h n t l b T) := by
+theorem verifyLargeIntervalSpecific_tapeFree (π : ProofLi) (E g h n : Int) (t l : Nat) (b : Int) :
+    TapeFree (verifyLargeIntervalSpecific π E g h n t l b) := by
   unfold verifyLargeIntervalSpecific; repeat tf_step
 
 theorem verifyOfToleranceSpecific_tapeFree (π : ProofWt) (g h E n a b : Int) (t l T : Nat) :
     TapeFree (verifyOfToleranceSpecific π g h E n a b t l T) := by
   unfold verifyOfToleranceSpecific
-  refine TapeFree.bind_prod (tolBounds_tapeFree _ _ _ _ _) fun aa bb => ?_
+  refine TapeFree.bind (tolBounds_tapeFree _ _ _) fun p => ?_
+  obtain ⟨aa, bb, b2⟩ := p
   dsimp only
   refine TapeFree.bind (TapeFree.pw _ _ _) fun gaa => ?_
   refine TapeFree.bind (divm_tapeFree _ _ _) fun Ea => ?_
@@ -1346,8 +1347,8 @@ theorem verifyOfToleranceSpecific_tapeFree (π : ProofWt) (g h E n a b : Int) (t
   refine TapeFree.ite _ ?_ (TapeFree.pure _)
   refine TapeFree.bind (verifyOfSquare_tapeFree _ _ _ _) fun s1 => ?_
   refine TapeFree.bind (TapeFree.ite _ (verifyOfSquare_tapeFree _ _ _ _) (TapeFree.pure _)) fun bs => ?_
-  refine TapeFree.bind (verifyLargeIntervalSpecific_tapeFree _ _ _ _ _ _ _ _ _) fun l1 => ?_
-  refine TapeFree.bind (TapeFree.ite _ (verifyLargeIntervalSpecific_tapeFree _ _ _ _ _ _ _ _ _)
+  refine TapeFree.bind (verifyLargeIntervalSpecific_tapeFree _ _ _ _ _ _ _ _) fun l1 => ?_
+  refine TapeFree.bind (TapeFree.ite _ (verifyLargeIntervalSpecific_tapeFree _ _ _ _ _ _ _ _)
     (TapeFree.pure _)) fun bl => ?_
   exact TapeFree.pure _
 
